@@ -1346,3 +1346,296 @@ Example join_region_nonvacuous :
   /\ lexited (lrun lconf_daemon vcr_default h_three [SMain; SMain; SWriter; SMain; SMain; SWriter; SMain; SWriter; SWriter; SWriter; SMain; SMain]) = true
   /\ lresult (lrun lconf_daemon vcr_default h_three [SMain; SMain; SWriter; SMain; SMain; SWriter; SMain; SWriter; SWriter; SWriter; SMain; SMain]) = (complete [1; 2; 3], LEnded Closed).
 Proof. vm_compute. repeat split; reflexivity. Qed.
+
+(* ------------------------------------------------------------------ *)
+(* Part 6: the handlers over WHOLE ScenarioFinished events              *)
+(* (added after seeded regression C16_d_final_scenarios_not_recorded)   *)
+(* ------------------------------------------------------------------ *)
+Lemma cassette_queue_ev_proj fwd h : cassette_queue_ev fwd h = cassette_queue (map (cevent_of fwd) h).
+Proof.
+  unfold cassette_queue_ev, cassette_queue. f_equal. f_equal.
+  induction h as [|e h IH]; [reflexivity|].
+  cbn [map flat_map]. rewrite IH. destruct e as [e| | |]; cbn [cassette_handle cevent_of]; try reflexivity.
+  destruct (fwd e); reflexivity.
+Qed.
+
+Lemma written_ev_proj fwd w h : written_ev_gen fwd w h = written w (map (cevent_of fwd) h).
+Proof. unfold written_ev_gen, written, written_gen. rewrite cassette_queue_ev_proj. reflexivity. Qed.
+
+Lemma delivered_proj fwd h : delivered (map (cevent_of fwd) h) = recorded_by fwd h.
+Proof.
+  unfold delivered, recorded_by. induction h as [|e h IH]; [reflexivity|].
+  cbn [map flat_map]. rewrite IH. destruct e as [e| | |]; cbn [cevent_of]; try reflexivity.
+  destruct (fwd e); reflexivity.
+Qed.
+
+Lemma recorded_all h : recorded_by forward_all h = delivered_ev h.
+Proof. reflexivity. Qed.
+
+Lemma no_raising_codec_proj fwd h : no_raising_codec_ev h = true -> no_raising_codec (map (cevent_of fwd) h) = true.
+Proof.
+  unfold no_raising_codec_ev, no_raising_codec. induction h as [|e h IH]; [reflexivity|].
+  cbn [map forallb]. intros H. apply andb_true_iff in H; destruct H as [He Hh]. rewrite (IH Hh), andb_true_r.
+  destruct e as [e| | |]; cbn [cevent_of]; try reflexivity. destruct (fwd e); [exact He | reflexivity].
+Qed.
+
+(* whatever the rule: what the handler hands over is written, in order, and the file is closed *)
+Lemma written_by_rule_har fwd san pres h :
+  written_ev_gen fwd {| w_fmt := HAR; w_sanitize := san; w_preserve := pres |} h = (complete (recorded_by fwd h), Closed).
+Proof. rewrite written_ev_proj, once_har, delivered_proj. reflexivity. Qed.
+
+Lemma written_by_rule_vcr fwd san pres h : no_raising_codec_ev h = true ->
+  written_ev_gen fwd {| w_fmt := VCR; w_sanitize := san; w_preserve := pres |} h = (complete (recorded_by fwd h), Closed).
+Proof. intros H. rewrite written_ev_proj, once_vcr by (apply no_raising_codec_proj, H). rewrite delivered_proj. reflexivity. Qed.
+
+(* the code as it is: every event attribute value *)
+Lemma once_all_events_har san pres h :
+  written_ev {| w_fmt := HAR; w_sanitize := san; w_preserve := pres |} h = (complete (delivered_ev h), Closed).
+Proof. unfold written_ev. rewrite written_by_rule_har. reflexivity. Qed.
+
+Lemma once_all_events_vcr san pres h : no_raising_codec_ev h = true ->
+  written_ev {| w_fmt := VCR; w_sanitize := san; w_preserve := pres |} h = (complete (delivered_ev h), Closed).
+Proof. intros H. unfold written_ev. rewrite written_by_rule_vcr by exact H. reflexivity. Qed.
+
+Lemma map_fst_complete l : map fst (complete l) = l.
+Proof. unfold complete. rewrite map_map. cbn [fst]. apply map_id. Qed.
+
+Lemma in_delivered_ev h e i : In (FScenario e) h -> In i (sf_inters e) -> In (i_id i) (delivered_ev h).
+Proof.
+  intros He Hi. unfold delivered_ev. apply in_flat_map. exists (FScenario e). split; [exact He|].
+  unfold ids_of. apply in_map, Hi.
+Qed.
+
+(* exactly once, read as a count: with case ids unique in the run (the assumption the property text makes
+   when it says each exchange), the id of every interaction of every delivered recorder occurs ONCE in
+   the file, complete - whatever phase, label, status, skip_reason, is_final of its event *)
+Lemma each_interaction_counted_once_har san pres h e i :
+  NoDup (delivered_ev h) -> In (FScenario e) h -> In i (sf_inters e) ->
+  count_occ N.eq_dec (map fst (fst (written_ev {| w_fmt := HAR; w_sanitize := san; w_preserve := pres |} h))) (i_id i) = 1%nat
+  /\ In (i_id i, true) (fst (written_ev {| w_fmt := HAR; w_sanitize := san; w_preserve := pres |} h)).
+Proof.
+  intros Hnd He Hi. rewrite once_all_events_har. cbn [fst]. rewrite map_fst_complete.
+  pose proof (in_delivered_ev h e i He Hi) as Hin. split.
+  - apply (proj1 (NoDup_count_occ' N.eq_dec (delivered_ev h)) Hnd), Hin.
+  - unfold complete. apply (in_map (fun k => (k, true))), Hin.
+Qed.
+
+Lemma each_interaction_counted_once_vcr san pres h e i : no_raising_codec_ev h = true ->
+  NoDup (delivered_ev h) -> In (FScenario e) h -> In i (sf_inters e) ->
+  count_occ N.eq_dec (map fst (fst (written_ev {| w_fmt := VCR; w_sanitize := san; w_preserve := pres |} h))) (i_id i) = 1%nat
+  /\ In (i_id i, true) (fst (written_ev {| w_fmt := VCR; w_sanitize := san; w_preserve := pres |} h)).
+Proof.
+  intros Hreg Hnd He Hi. rewrite once_all_events_vcr by exact Hreg. cbn [fst]. rewrite map_fst_complete.
+  pose proof (in_delivered_ev h e i He Hi) as Hin. split.
+  - apply (proj1 (NoDup_count_occ' N.eq_dec (delivered_ev h)) Hnd), Hin.
+  - unfold complete. apply (in_map (fun k => (k, true))), Hin.
+Qed.
+
+(* a rule is right exactly when the events it drops carry no interaction *)
+Lemma delivered_split_length fwd h : length (delivered_ev h) = (length (recorded_by fwd h) + length (lost_by fwd h))%nat.
+Proof.
+  unfold delivered_ev, recorded_by, lost_by. induction h as [|e h IH]; [reflexivity|].
+  cbn [flat_map]. rewrite !app_length, IH. destruct e as [e| | |]; cbn [length]; try lia.
+  destruct (fwd e); cbn [length]; lia.
+Qed.
+
+Lemma recorded_eq_iff fwd h : recorded_by fwd h = delivered_ev h <-> lost_by fwd h = [].
+Proof.
+  split.
+  - intros H. pose proof (delivered_split_length fwd h) as L. rewrite <- H in L.
+    destruct (lost_by fwd h); [reflexivity | cbn [length] in L; lia].
+  - unfold delivered_ev, recorded_by, lost_by. induction h as [|e h IH]; [reflexivity|].
+    cbn [flat_map]. intros H. apply app_eq_nil in H. destruct H as [He Hh]. rewrite (IH Hh).
+    destruct e as [e| | |]; try reflexivity. destruct (fwd e); [reflexivity|]. rewrite He. reflexivity.
+Qed.
+
+Lemma complete_inj a b : complete a = complete b -> a = b.
+Proof. intros H. rewrite <- (map_fst_complete a), <- (map_fst_complete b), H. reflexivity. Qed.
+
+Lemma rule_complete_iff_har fwd san pres h :
+  written_ev_gen fwd {| w_fmt := HAR; w_sanitize := san; w_preserve := pres |} h = (complete (delivered_ev h), Closed)
+  <-> lost_by fwd h = [].
+Proof.
+  rewrite written_by_rule_har, <- recorded_eq_iff. split.
+  - intros H. injection H as H. apply complete_inj, H.
+  - intros ->. reflexivity.
+Qed.
+
+Lemma rule_complete_iff_vcr fwd san pres h : no_raising_codec_ev h = true ->
+  (written_ev_gen fwd {| w_fmt := VCR; w_sanitize := san; w_preserve := pres |} h = (complete (delivered_ev h), Closed)
+   <-> lost_by fwd h = []).
+Proof.
+  intros Hreg. rewrite written_by_rule_vcr by exact Hreg. rewrite <- recorded_eq_iff. split.
+  - intros H. injection H as H. apply complete_inj, H.
+  - intros ->. reflexivity.
+Qed.
+
+(* the sentinel: a stateful run in which the second, link-derived step meets a transport error.  Hypothesis
+   replays the failing sequence once more (is_final = true): fresh case ids 4 and 5, real traffic *)
+Definition i_neterr (n : N) : inter := {| i_id := n; i_userinfo := false; i_response := false; i_codec := CodecOk; i_cookie_values := [] |}.
+Definition ev_stateful (final : bool) (st : status) (cases : list case_rec) (ints : list inter) : sf_event :=
+  {| sf_phase := PhStateful; sf_label := None; sf_status := st; sf_skip_reason := false; sf_is_final := final;
+     sf_rlabel := 2; sf_cases := cases; sf_inters := ints |}.
+Definition h_final_replay : list fevent :=
+  [FScenario (ev_stateful false StError [] [i_plain 1; i_neterr 2]); FScenario (ev_stateful false StSuccess [] [i_plain 3]);
+   FScenario (ev_stateful true StError [] [i_plain 4; i_neterr 5]); FNonFatal 2; FEngineFinished].
+
+Lemma skip_final_loses_final_replay :
+  delivered_ev h_final_replay = [1; 2; 3; 4; 5] /\ NoDup (delivered_ev h_final_replay)
+  /\ lost_by skip_final h_final_replay = [4; 5]
+  /\ written_ev_gen skip_final vcr_default h_final_replay = (complete [1; 2; 3], Closed)
+  /\ written_ev_gen skip_final har_sanitized h_final_replay = (complete [1; 2; 3], Closed)
+  /\ written_ev vcr_default h_final_replay = (complete [1; 2; 3; 4; 5], Closed)
+  /\ written_ev har_sanitized h_final_replay = (complete [1; 2; 3; 4; 5], Closed).
+Proof.
+  repeat split; try (vm_compute; reflexivity).
+  vm_compute. repeat constructor; cbn; intros H; repeat (destruct H as [H|H]; [discriminate|]); exact H.
+Qed.
+
+(* the loss is silent: the file is closed, well-formed, and an interaction that was delivered is not in it *)
+Lemma skip_final_refuted_ex : exists w h e i,
+  In (FScenario e) h /\ In i (sf_inters e) /\ NoDup (delivered_ev h)
+  /\ ~ In (i_id i) (map fst (fst (written_ev_gen skip_final w h)))
+  /\ snd (written_ev_gen skip_final w h) = Closed.
+Proof.
+  exists vcr_default, h_final_replay, (ev_stateful true StError [] [i_plain 4; i_neterr 5]), (i_plain 4).
+  split; [cbn; auto|]. split; [cbn; auto|]. split; [apply skip_final_loses_final_replay|].
+  split; [|vm_compute; reflexivity].
+  vm_compute. intros H. repeat (destruct H as [H|H]; [discriminate|]). exact H.
+Qed.
+
+(* ---- JUnit over full events ---- *)
+Lemma bad_ids_nil e : forallb (fun i => negb (text_raises i)) (sf_inters e) = true -> bad_ids e = [].
+Proof.
+  unfold bad_ids. induction (sf_inters e) as [|i l IH]; [reflexivity|].
+  cbn [forallb filter]. intros H. apply andb_true_iff in H; destruct H as [Hi Hl]. apply negb_true_iff in Hi.
+  rewrite Hi. apply IH, Hl.
+Qed.
+
+Lemma find_mem_nil (g : groups) : find (fun cg => mem (fst cg) []) g = None.
+Proof. induction g as [|cg g IH]; [reflexivity|]. cbn [find mem]. exact IH. Qed.
+
+Definition event_decodable (e : fevent) : bool :=
+  match e with FScenario e => forallb (fun i => negb (text_raises i)) (sf_inters e) | _ => true end.
+
+Lemma junit_step_ev_decodable s t w e : event_decodable e = true ->
+  junit_step_ev forward_all s t w [] e = lift_ev [] (junit_step false s t w (jevent_of e)).
+Proof.
+  intros H. destruct e as [e| | |]; try reflexivity.
+  cbn [event_decodable] in H. cbn [junit_step_ev forward_all]. rewrite (bad_ids_nil e H). cbn [app].
+  destruct (sf_status e); try reflexivity. rewrite find_mem_nil. reflexivity.
+Qed.
+
+Lemma junit_from_ev_decodable h : texts_decodable h = true -> forall s t w,
+  junit_from_ev forward_all s t w [] h = lift_ev [] (junit_from false s t w (map jevent_of h)).
+Proof.
+  unfold texts_decodable. induction h as [|e h IH]; intros H s t w; [reflexivity|].
+  cbn [forallb] in H. apply andb_true_iff in H; destruct H as [He Hh].
+  cbn [junit_from_ev junit_from map]. rewrite (junit_step_ev_decodable s t w e He).
+  destruct (junit_step false s t w (jevent_of e)); cbn [lift_ev]; [reflexivity | apply IH, Hh].
+Qed.
+
+Lemma junit_run_ev_decodable h : texts_decodable h = true -> junit_run_ev h = lift_ev [] (junit_run (map jevent_of h)).
+Proof. intros H. apply junit_from_ev_decodable, H. Qed.
+
+(* region: no response text that raises on decode - then no event attribute makes the handler abort the run *)
+Lemma junit_ev_never_crashes h : texts_decodable h = true -> exists s t w, junit_run_ev h = RunningEv s t w [].
+Proof.
+  intros H. rewrite (junit_run_ev_decodable h H). destruct (junit_never_crashes (map jevent_of h)) as (s & t & w & ->).
+  exists s, t, w. reflexivity.
+Qed.
+
+(* whenever the run is not aborted, the handler state is the state of the dictionary-level machine *)
+Lemma junit_step_ev_running s t w bad e s1 t1 w1 bad1 : junit_step_ev forward_all s t w bad e = RunningEv s1 t1 w1 bad1 ->
+  junit_step false s t w (jevent_of e) = Running s1 t1 w1.
+Proof.
+  destruct e as [e| | |]; cbn [junit_step_ev forward_all].
+  - destruct (sf_status e) eqn:Est.
+    2: destruct (find _ _); [discriminate|].
+    all: destruct (junit_step false s t w (jevent_of (FScenario e))); cbn [lift_ev]; intros H; [discriminate | injection H as <- <- <- _; reflexivity].
+  - destruct (junit_step false s t w (jevent_of (FNonFatal l))); cbn [lift_ev]; intros H; [discriminate | injection H as <- <- <- _; reflexivity].
+  - destruct (junit_step false s t w (jevent_of FEngineFinished)); cbn [lift_ev]; intros H; [discriminate | injection H as <- <- <- _; reflexivity].
+  - destruct (junit_step false s t w (jevent_of FOther)); cbn [lift_ev]; intros H; [discriminate | injection H as <- <- <- _; reflexivity].
+Qed.
+
+Lemma junit_from_ev_running h : forall s t w bad s1 t1 w1 bad1, junit_from_ev forward_all s t w bad h = RunningEv s1 t1 w1 bad1 ->
+  junit_from false s t w (map jevent_of h) = Running s1 t1 w1.
+Proof.
+  induction h as [|e h IH]; intros s t w bad s1 t1 w1 bad1 H.
+  - cbn in H. injection H as <- <- <- _. reflexivity.
+  - cbn [junit_from_ev] in H. destruct (junit_step_ev forward_all s t w bad e) as [a|s' t' w' bad'] eqn:Es; [discriminate|].
+    cbn [map junit_from]. rewrite (junit_step_ev_running _ _ _ _ _ _ _ _ _ Es). apply (IH _ _ _ _ _ _ _ _ H).
+Qed.
+
+Lemma failure_labels_proj h : failure_labels (map jevent_of h) = failure_labels_ev h.
+Proof.
+  induction h as [|e h IH]; [reflexivity|].
+  cbn [map]. destruct e as [e| | |]; cbn [jevent_of failure_labels failure_labels_ev]; try exact IH.
+  destruct (sf_status e); cbn [recorder_of r_label]; rewrite IH; reflexivity.
+Qed.
+
+Lemma in_failure_labels_ev h e : In (FScenario e) h -> sf_status e = StFailure -> In (sf_rlabel e) (failure_labels_ev h).
+Proof.
+  intros Hin Hst. induction h as [|x h IH]; [destruct Hin|].
+  destruct Hin as [->|Hin].
+  - cbn [failure_labels_ev]. rewrite Hst. left. reflexivity.
+  - specialize (IH Hin). destruct x as [x| | |]; cbn [failure_labels_ev]; try exact IH.
+    destruct (sf_status x); try exact IH. right. exact IH.
+Qed.
+
+(* every history, no region: when the run was not aborted, every FAILURE-status event - final or not, any phase, with
+   or without an event label - has left a failure element under the label of its recorder *)
+Lemma junit_ev_failure_reported h s t w bad e : junit_run_ev h = RunningEv s t w bad ->
+  In (FScenario e) h -> sf_status e = StFailure -> has_failure (sf_rlabel e) t = true.
+Proof.
+  intros Hr Hin Hst. apply junit_from_ev_running in Hr.
+  apply (junit_failure_reported _ _ _ _ _ Hr). rewrite failure_labels_proj. apply in_failure_labels_ev; assumption.
+Qed.
+
+(* refuted outside the region: a failed check on a response whose charset Python does not know (or whose codec
+   raises): rendering the failure for junit.xml raises LookupError / UnicodeError, the run is aborted.  The abort
+   can come later than the response: the group stays under its label and is rendered again by every later FAILURE
+   event of that label *)
+Definition ev_unit (l : label) (st : status) (cases : list case_rec) (ints : list inter) : sf_event :=
+  {| sf_phase := PhFuzzing; sf_label := Some l; sf_status := st; sf_skip_reason := false; sf_is_final := false;
+     sf_rlabel := l; sf_cases := cases; sf_inters := ints |}.
+Definition h_bogus_failure : list fevent :=
+  [FScenario (ev_unit 1 StFailure [{| c_id := 1; c_checks := [Some 7] |}] [i_bogus 1]); FEngineFinished].
+Definition h_bogus_then_failure : list fevent :=
+  [FScenario (ev_unit 1 StSuccess [{| c_id := 1; c_checks := [Some 7] |}] [i_undefined 1]);
+   FScenario (ev_unit 1 StFailure [{| c_id := 2; c_checks := [Some 8] |}] [i_plain 2]); FEngineFinished].
+Lemma junit_ev_aborts_on_undecodable_text :
+  texts_decodable h_bogus_failure = false /\ junit_run_ev h_bogus_failure = Aborted (AbortText 1)
+  /\ junit_run_ev h_bogus_then_failure = Aborted (AbortText 1)
+  /\ (exists s t w, junit_run (map jevent_of h_bogus_failure) = Running s t w).
+Proof. repeat split; try (vm_compute; reflexivity). apply junit_never_crashes. Qed.
+Lemma junit_ev_never_crashes_refuted_ex : exists h a, junit_run_ev h = Aborted a.
+Proof. exists h_bogus_failure, (AbortText 1). apply junit_ev_aborts_on_undecodable_text. Qed.
+Example junit_ev_region_nonvacuous :
+  texts_decodable h_final_replay = true
+  /\ texts_decodable [FScenario (ev_unit 1 StFailure [{| c_id := 1; c_checks := [Some 7] |}] [i_plain 1]); FScenario (ev_stateful true StFailure [{| c_id := 2; c_checks := [Some 7] |}] [i_neterr 2])] = true.
+Proof. split; reflexivity. Qed.
+
+(* sentinel: a JUnit handler that passed over final scenarios *)
+Definition h_final_failure : list fevent :=
+  [FScenario (ev_stateful false StSuccess [{| c_id := 10; c_checks := [None] |}] [i_plain 10]);
+   FScenario (ev_stateful true StFailure [{| c_id := 20; c_checks := [Some 7] |}] [i_plain 20]); FEngineFinished].
+Definition reported (l : label) (r : jresult_ev) : bool :=
+  match r with RunningEv _ t _ _ => has_failure l t | Aborted _ => false end.
+Lemma junit_skip_final_misses_failure :
+  failure_labels_ev h_final_failure = [2]
+  /\ reported 2 (junit_run_ev h_final_failure) = true
+  /\ reported 2 (junit_run_ev_gen skip_final h_final_failure) = false.
+Proof. repeat split; vm_compute; reflexivity. Qed.
+
+(* the lifecycle theorems of Part 5 read over full events *)
+Lemma report_complete_at_exit_ev_har san pres h sched :
+  lexited (lrun lconf_report_dir {| w_fmt := HAR; w_sanitize := san; w_preserve := pres |} (map (cevent_of forward_all) h) sched) = true ->
+  lresult (lrun lconf_report_dir {| w_fmt := HAR; w_sanitize := san; w_preserve := pres |} (map (cevent_of forward_all) h) sched)
+  = (complete (delivered_ev h), LEnded Closed).
+Proof. intros Hex. rewrite report_complete_at_exit_har by exact Hex. rewrite delivered_proj. reflexivity. Qed.
+
+Example all_events_nonvacuous :
+  no_raising_codec_ev h_final_replay = true /\ NoDup (delivered_ev h_final_replay)
+  /\ In (FScenario (ev_stateful true StError [] [i_plain 4; i_neterr 5])) h_final_replay.
+Proof. split; [reflexivity|]. split; [apply skip_final_loses_final_replay|]. cbn; auto. Qed.
